@@ -156,6 +156,26 @@ static std::vector<Program> level_programs() {
                item({}, {}, 2), item({}, {}, 2)};
     v.push_back(p);
   }
+  {
+    // three threads on one socket each start with one item: two of a LATE
+    // level and one of the earliest, which fans out at its own level; the
+    // helpers (who last popped at the late level) then create work of a level
+    // in between.  That work sits in the helper's private chunk: only its
+    // creator can announce it at the next level switch
+    Program p;
+    p.name  = "help-mid";
+    p.ninit = 3;
+    p.items = {item({}, {}, 2),  item({}, {}, 2), item({}, {3, 4, 5}, 0),
+               item({}, {6}, 0), item({}, {}, 0), item({}, {}, 0),
+               item({}, {}, 1)};
+    v.push_back(p);
+    // ... and with two such items (the second one publishes the first)
+    p.name  = "help-mid2";
+    p.items = {item({}, {}, 2),        item({}, {}, 2),  item({}, {3, 4, 5}, 0),
+               item({}, {6}, 0),       item({}, {7}, 0), item({}, {}, 0),
+               item({}, {}, 1),        item({}, {}, 1)};
+    v.push_back(p);
+  }
   return v;
 }
 
@@ -211,6 +231,10 @@ int main(int argc, char** argv) {
     add("OBIM-barrier", R<OB>(), 1, P["same-level-push"], cd, {2}, 2, -1, 2, 4);
     add("OBIM-barrier", R<OB>(), 1, P["tree"], cd, {2, 1}, 3, 1, 1, 3);
     add("OBIM-barrier", R<OB>(), 1, P["sparse"], cd, {3}, 3, -1, 1, 3);
+    add("OBIM-barrier", R<OB>(), 1, P["help-mid"], cd, {3}, 3, cd ? -1 : 1, 1,
+        3);
+    add("OBIM-barrier", R<OB>(), 1, P["help-mid2"], cd, {3}, 3, -1, 1, 3);
+    add("OBIM-barrier-mono", R<OBM>(), 1, P["help-mid"], cd, {3}, 3, -1, 1, 3);
     add("OBIM-barrier-mono", R<OBM>(), 1, P["chain"], cd, {2}, 2, 1, 2, 4);
     add("OBIM-barrier-mono", R<OBM>(), 1, P["fan"], cd, {1, 1}, 2, -1, 2, 4);
     add("OBIM-barrier-nobsp", R<OBN>(), 1, P["sparse"], cd, {2}, 2, 1, 2, 4);
